@@ -101,7 +101,8 @@ type Conn struct {
 	outer *clientHello
 	inner *clientHello
 
-	hpkeCtx *hpke.Receipient
+	hpkeCtx    *hpke.Receipient
+	hpkeConfig []byte
 
 	keys             []Key
 	debugf           func(string, ...any)
@@ -190,6 +191,7 @@ func (c *Conn) processEncryptedClientHello(h *clientHello, isRetry bool) (*clien
 		return nil, nil
 	}
 	var innerBytes []byte
+	var opened bool
 	for _, key := range c.keys {
 		cfg, err := Config(key.Config).Spec()
 		if err != nil || cfg.ID != h.echExt.ConfigID || slices.IndexFunc(cfg.CipherSuites, func(cs CipherSuite) bool {
@@ -197,7 +199,15 @@ func (c *Conn) processEncryptedClientHello(h *clientHello, isRetry bool) (*clien
 		}) == -1 {
 			continue
 		}
-		if c.hpkeCtx == nil && len(h.echExt.Enc) > 0 {
+		// A retried ClientHello can only be opened with the key, and the
+		// context, that opened the first one.
+		if c.hpkeCtx != nil && !slices.Equal(c.hpkeConfig, key.Config) {
+			continue
+		}
+		// Several keys can share a config id. Each candidate gets its own
+		// context, and the first one that opens the payload wins.
+		hpkeCtx := c.hpkeCtx
+		if hpkeCtx == nil && len(h.echExt.Enc) > 0 {
 			echPriv, err := hpke.ParseHPKEPrivateKey(cfg.KEM, key.PrivateKey)
 			if err != nil {
 				return nil, err
@@ -207,24 +217,27 @@ func (c *Conn) processEncryptedClientHello(h *clientHello, isRetry bool) (*clien
 			if err != nil {
 				continue
 			}
-			c.hpkeCtx = ctx
+			hpkeCtx = ctx
 		}
-		if c.hpkeCtx == nil {
+		if hpkeCtx == nil {
 			return nil, ErrIllegalParameter
 		}
 		aad, err := h.marshalAAD()
 		if err != nil {
 			return nil, err
 		}
-		innerBytes, err = c.hpkeCtx.Open(aad, h.echExt.Payload)
+		plaintext, err := hpkeCtx.Open(aad, h.echExt.Payload)
 		if err != nil {
 			continue
 		}
 		if string(cfg.PublicName) != h.ServerName {
 			return nil, ErrIllegalParameter
 		}
+		innerBytes, opened = plaintext, true
+		c.hpkeCtx, c.hpkeConfig = hpkeCtx, key.Config
+		break
 	}
-	if innerBytes == nil {
+	if !opened {
 		// Section 7.1.1, regarding a retried ClientHello:
 		// If decryption fails, the client-facing server MUST abort the
 		// handshake with a "decrypt_error" alert.
